@@ -108,7 +108,9 @@ class Spec:
         self.max_rects = max_rects
 
     def initial(self, init_id):
-        nr, nc = map(int, init_id.split("x"))
+        """init_id = 'RxC' or 'RxC+saved:r0,c0,r1,c1' (one rectangle merged, then the open document saved once and kept)."""
+        base, _, extra = init_id.partition("+saved:")
+        nr, nc = map(int, base.split("x"))
         st = State()
         st.doc = Document(num_rows=nr, num_cols=nc, num_header_rows=0, num_header_cols=0)
         t = st.doc.sheets[0].tables[0]
@@ -119,6 +121,15 @@ class Spec:
         st.rects = []
         st.mode = "exact"  # "exact" | "consistency" (statement does not fix the outcome) | "tainted" (known defect class)
         st.reopened = 0
+        st.saved = 0
+        if extra:
+            rect = [int(x) for x in extra.split(",")]
+            t.merge_cells(a1_range(rect))
+            self._apply_merge(st, rect)
+            p = _tmp()
+            st.doc.save(p)
+            os.unlink(p)
+            st.saved = 1
         return st
 
     def enabled(self, st, depth_left):
@@ -152,6 +163,8 @@ class Spec:
                 evs.append(["del_col", i])
         if st.reopened < 1:
             evs.append(["reopen"])
+        if st.saved < 1:
+            evs.append(["save"])  # the same open document keeps being edited after a save
         return evs
 
     def _apply_merge(self, st, rect):
@@ -245,6 +258,11 @@ class Spec:
                         st.mode = "consistency"
                     new = [x for x in new if x is not None]
                 st.rects = new
+            elif kind == "save":
+                p = _tmp()
+                st.doc.save(p)
+                os.unlink(p)
+                st.saved += 1
             elif kind == "reopen":
                 p = _tmp()
                 st.doc.save(p)
@@ -329,7 +347,7 @@ class Spec:
         refs = sorted((k, type(v).__name__, getattr(v, "size", None), getattr(v, "rect", None)) for k, v in m._merge_cells[tid]._references.items() if v) if tid in m._merge_cells else None
         t = st.doc.sheets[0].tables[0]
         classes = [[type(c).__name__ for c in row] for row in t._data]
-        return repr((st.grid, sorted(st.rects), st.mode, st.reopened, refs, classes))
+        return repr((st.grid, sorted(st.rects), st.mode, st.reopened, st.saved, refs, classes))
 
 
 # The merge map of the library is not shifted by structural edits (known finding C12-merge-map-not-shifted);
@@ -342,8 +360,9 @@ SPECS = {"full": Spec(pairs_at_root=True), "nopairs": Spec(pairs_at_root=False)}
 
 def plan(tier):
     if tier == "quick":
-        return [("full", ["3x3"], 1, True), ("nopairs", ["3x3"], 2, True), ("nopairs", ["2x5", "4x4"], 1, True)]
-    return [("full", ["3x3", "2x5", "4x4"], 2, True), ("nopairs", ["3x3"], 3, True), ("nopairs", ["4x4"], 3, False), ("nopairs", ["2x3"], 4, True)]
+        return [("full", ["3x3"], 1, True), ("nopairs", ["3x3"], 2, True), ("nopairs", ["3x3+saved:1,1,2,2", "3x3+saved:0,1,0,2"], 1, True), ("nopairs", ["2x5", "4x4"], 1, True)]
+    return [("full", ["3x3", "2x5", "4x4"], 2, True), ("nopairs", ["3x3"], 3, True), ("nopairs", ["3x3+saved:1,1,2,2", "3x3+saved:0,1,0,2", "4x4+saved:2,2,3,3"], 2, True),
+            ("nopairs", ["4x4"], 3, False), ("nopairs", ["2x3"], 4, True)]
 
 
 def main():
@@ -368,7 +387,7 @@ def main():
                                                   "transitions": run.counters["transitions"] - before.get("transitions", 0),
                                                   "states": run.counters["states"] - before.get("states", 0)})
     run.floor("merge, merge2, write, add_row, add_col, del_row, del_col and reopen events all executed",
-              {"merge", "merge2", "write", "add_row", "add_col", "del_row", "del_col", "reopen"} <= {k.split(":")[0] for k in run.outcomes})
+              {"merge", "merge2", "write", "add_row", "add_col", "del_row", "del_col", "reopen", "save"} <= {k.split(":")[0] for k in run.outcomes})
     run.floor(">= 1000 transitions and >= 300 save/reopen probes", run.counters["transitions"] >= 1000 and run.counters["probes"] >= 300)
     cov = {"states": run.counters["states"], "transitions": run.counters["transitions"], "traces_validated_against_impl": run.counters["transitions"],
            "explanation": "every transition executes the real Table API; the oracle is exact (value grid + rectangle set) while the statement fixes the outcome and "
